@@ -77,7 +77,10 @@ def plan(seed, subbatch):
     offset = sub_rng(seed, "aware").choice((None, None, None, 0, 0, 60, -210))
     return {"format": 1, "property": ID, "seed": seed, "subbatch": subbatch,
             "config": {"kind": kind, "members": members, "hexital": hexcfg, "base_s": base_s,
-                       "utc_offset_min": offset},
+                       "utc_offset_min": offset,
+                       "pre_probe": (sub_rng(seed, "pre-probe").sample(["str", "repr", "settings", "name", "has_reading", "as_list",
+                                                                         "reading_count"], 2)
+                                     if sub_rng(seed, "pre-probe-p").random() < 0.25 else [])},
             "ops": [{"op": "new", "preload": pre}] + ops + [{"op": "final"}], "fired": dict(fired)}
 
 
@@ -143,6 +146,18 @@ def execute(trace, ctx=None):
         if cfg.get("utc_offset_min") is not None:
             run.stats["reach:timezone_aware_stream"] += 1
         subj = Machine(run, cfg)          # probes + sampled encodings
+        if cfg.get("pre_probe"):
+            # read-only calls on the freshly built objects, BEFORE they are registered in a Hexital or calculated
+            def pre(ind):
+                for what in cfg["pre_probe"]:
+                    try:
+                        {"str": lambda: str(ind), "repr": lambda: repr(ind), "settings": lambda: ind.settings,
+                         "name": lambda: ind.name, "has_reading": lambda: ind.has_reading,
+                         "as_list": lambda: ind.as_list(), "reading_count": lambda: ind.reading_count()}[what]()
+                    except Exception:  # noqa: BLE001 - an accessor may refuse on an empty object
+                        pass
+                run.stats["reach:read_only_calls_before_registration"] += len(cfg["pre_probe"])
+            subj.pre_hook = pre
         free = Machine(run, cfg)          # no probes, same encodings
         plain = Machine(run, cfg)         # no probes, Candle objects
         probes_done = 0
